@@ -16,7 +16,8 @@ MANIFEST = {
             "for content types in wf_ct): the stream between ExtendedToStreamDecorator and StreamToExtendedDecorator "
             "is well formed (inprogress, per detail its chunks with eof exactly on the last, reason file, one final "
             "status) and the final result logs for each test one startTest/outcome/stopTest bracket with the same id, "
-            "outcome (error as failure), tags, times, skip reason and every non-empty detail. The hand-written "
+            "outcome (error as failure), tags, times (also a time() supplied before the first startTest starts the run "
+            "itself; an explicit startTestRun resets it), skip reason and every non-empty detail. The hand-written "
             "Gallina model is tied to /repo on every run by differential execution inside coqc; the oracle for a "
             "failing input is the executable statement spec_okb, proved to imply the readable Spec.",
     "note": "Trusted: Coq kernel + vm_compute; the harness (generator, driver, Gallina printer); test ids, detail "
@@ -28,18 +29,22 @@ MANIFEST = {
                  "model/implementation correspondence in coqc",
     "ref": "6 C09",
 }
-RULE = ("well-formed histories: optional startTestRun, 0-5 tests (ids may repeat) each startTest / outcome / stopTest "
-        "with time() and tags() calls before, inside and after; every outcome kind with exc_info, details or neither; "
+RULE = ("well-formed histories: 0-3 time() calls before the run is started (40% of the histories), optional "
+        "startTestRun (else the first startTest starts the run), 0-5 tests (ids may repeat) each startTest / outcome / "
+        "stopTest with time() and tags() calls before, inside and after; every outcome kind with exc_info, details or neither; "
         "0-3 details x 0-4 chunks incl. empty ones; text and binary content types with 0-2 parameters inside wf_ct; "
         "non-ASCII names, reasons and payloads; non-trivial = a test with a detail of >= 2 chunks, or >= 2 tests with "
-        "tags or supplied times; distinct = distinct JSON")
+        "tags or supplied times, or a time() before the start of a run that has a test; distinct = distinct JSON")
 TRUSTED = ["doubles.StreamResult (tapped with CopyStreamResult) and doubles.ExtendedTestResult (plus a subclass that "
            "records current_tags at each outcome) are the observation instruments",
            "an exc_info argument is given to the model as the chunks TracebackContent(err, test) yields when asked "
            "directly by the harness (traceback formatting is not modelled)",
            "Python's sorted() on ASCII parameter names agrees with byte-wise String.leb"]
-ASSUMPTIONS = ["histories are well formed (Spec.C09.wf): the run is started before time()/tags(), tests are not nested, "
-               "one outcome per test, a skip reason is not combined with details, detail names are distinct",
+ASSUMPTIONS = ["histories are well formed (Spec.C09.wf): time() anywhere, also before the run is started explicitly or by "
+               "the first startTest; the run is started before tags() (ExtendedToStreamDecorator has no tag context "
+               "before: AttributeError, reported as a suspected defect with notes/fixes/e2s-tags-before-start.patch); "
+               "tests are not nested, one outcome per test, a skip reason is not combined with details, detail names "
+               "are distinct",
                "content types are inside Mime.wf_ct (lower-case token type/subtype/parameter names; values printable "
                "ASCII without double quote, backslash, '=?'; charset without ','): the F16 corners are outside the "
                "generated domain",
@@ -435,7 +440,11 @@ def rand_outcome(rng, i):
 
 def rand_history(rng, max_tests=5):
     ops = []
-    explicit = rng.random() < 0.8
+    explicit = rng.random() < 0.7
+    # time() before the run is started: kept by the implicit start, reset by an explicit startTestRun; last wins
+    if rng.random() < 0.4:
+        for _ in range(rng.choice([1, 1, 2, 3])):
+            ops.append(["time", rng.randint(1, 50)])
     if explicit:
         ops.append(["startRun"])
         ops += noise(rng)
@@ -491,6 +500,21 @@ def fixed_cases():
     for kind in ("addError", "addFailure", "addExpectedFailure"):
         out.append({"ops": [["startRun"], ["startTest", 4], ["outcome", kind, 4, None, None, ["ValueError", "boom ✓"]],
                             ["stopTest", 4], ["stopRun"]]})
+    # time() before the run is started: kept across the implicit start (inprogress, replayed startTest and outcome
+    # carry it), last of several wins, a later time() replaces it; an explicit startTestRun resets it
+    ok = lambda i: ["outcome", "addSuccess", i, None, None, None]
+    out.append({"ops": [["time", 7], ["startTest", 1], ok(1), ["stopTest", 1]]})
+    out.append({"ops": [["time", 7], ["time", 9], ["time", 8], ["startTest", 1], ok(1), ["stopTest", 1], ["stopRun"]]})
+    out.append({"ops": [["time", 7], ["startTest", 1], ["time", 9], ok(1), ["stopTest", 1], ["startTest", 2], ok(2),
+                        ["stopTest", 2], ["stopRun"]]})
+    out.append({"ops": [["time", 7], ["startTest", 2], ["tags", [1], []],
+                        ["outcome", "addFailure", 2, [d(2, utf8, [b"a", b"b"])], None, None], ["stopTest", 2]]})
+    out.append({"ops": [["time", 7], ["startRun"], ["startTest", 1], ok(1), ["stopTest", 1], ["stopRun"]]})
+    out.append({"ops": [["time", 7], ["time", 6], ["startRun"], ["time", 8], ["startTest", 1], ["time", 9], ok(1),
+                        ["stopTest", 1]]})
+    out.append({"ops": [["time", 7]]})
+    out.append({"ops": [["time", 7], ["time", 9], ["startRun"]]})
+    out.append({"ops": [["time", 5], ["startTest", 3], ["outcome", "addSkip", 3, None, "later", None], ["stopTest", 3]]})
     # same id twice, tags leaking check, time only before the run's first test
     out.append({"ops": [["startRun"], ["time", 1], ["tags", [4], []], ["startTest", 1], ["tags", [1], [4]],
                         ["outcome", "addSuccess", 1, None, None, None], ["tags", [2], []], ["stopTest", 1],
@@ -512,9 +536,21 @@ def tests_of(case):
     return [op for op in case["ops"] if op[0] == "outcome"]
 
 
+def pre_start_times(case):
+    """the time() calls before the run is started, and how it is started ('startRun' / 'startTest' / None)"""
+    n = 0
+    for op in case["ops"]:
+        if op[0] != "time":
+            return n, op[0]
+        n += 1
+    return n, None
+
+
 def nontrivial(case):
     outs = tests_of(case)
     if any(d for o in outs for d in (o[3] or []) if len(d["chunks"]) >= 2):
+        return True
+    if outs and pre_start_times(case)[0] > 0:
         return True
     return len(outs) >= 2 and any(op[0] in ("tags", "time") for op in case["ops"])
 
@@ -563,12 +599,17 @@ def shrink(case):
 def distribution(cases):
     d = {"details_with_repeated_chunk": 0, "param_values_with_upper_case": 0, "tests": {}, "kinds": {}, "via": {"exc_info": 0, "details": 0, "neither": 0}, "details_per_test": {},
          "chunks_per_detail": {}, "empty_chunks": 0, "params_per_type": {}, "text_details": 0, "binary_details": 0,
-         "skip_reasons": 0, "explicit_startTestRun": 0, "stopTestRun": 0, "time_calls": 0, "tags_calls": 0}
+         "skip_reasons": 0, "explicit_startTestRun": 0, "stopTestRun": 0, "time_calls": 0, "tags_calls": 0,
+         "time_before_implicit_start": 0, "time_before_explicit_start": 0, "several_times_before_start": 0}
     for c in cases:
         outs = tests_of(c)
         b = min(len(outs), 5)
         d["tests"][b] = d["tests"].get(b, 0) + 1
-        d["explicit_startTestRun"] += bool(c["ops"]) and c["ops"][0][0] == "startRun"
+        d["explicit_startTestRun"] += any(op[0] == "startRun" for op in c["ops"])
+        pre, how = pre_start_times(c)
+        d["time_before_implicit_start"] += pre > 0 and how == "startTest"
+        d["time_before_explicit_start"] += pre > 0 and how == "startRun"
+        d["several_times_before_start"] += pre > 1 and how is not None
         d["stopTestRun"] += bool(c["ops"]) and c["ops"][-1][0] == "stopRun"
         d["time_calls"] += sum(op[0] == "time" for op in c["ops"])
         d["tags_calls"] += sum(op[0] == "tags" for op in c["ops"])
